@@ -110,7 +110,7 @@ def _ordered(g):
     return walk(g)
 
 
-def apply_pass(proto_bytes, pass_name, seed_outputs, seed_inputs, want_c14=True, full_check=False):
+def apply_pass(proto_bytes, pass_name, seed_outputs, seed_inputs, want_c14=True, full_check=False, seed_feeds=None):
     """One transition. Returns dict(new_bytes, c05 violations, c14 violations, modified, crashed)."""
     proto = onnx.ModelProto.FromString(proto_bytes)
     model = ir.from_proto(proto)
@@ -164,8 +164,24 @@ def apply_pass(proto_bytes, pass_name, seed_outputs, seed_inputs, want_c14=True,
     if non_initializer_inputs(after_proto) != seed_inputs:
         c05.append(("non_initializer_inputs_changed", (seed_inputs, non_initializer_inputs(after_proto))))
     if not any(c[0] == "checker_rejects_after_pass" for c in c05):
-        got = outputs_on_feeds(after_proto)
+        if seed_feeds is None:
+            got = outputs_on_feeds(after_proto)
+        else:
+            # the seed's own feeds; a feed that overrides an initializer-input the transformed model no longer
+            # lists cannot be passed any more (the interface was reduced by design): not compared
+            now_inputs = {i.name for i in after_proto.graph.input}
+            got = []
+            for f in seed_feeds:
+                if any(k not in now_inputs for k in f):
+                    got.append(None)
+                    continue
+                try:
+                    got.append(evalproto.run(after_proto, f))
+                except evalproto.EvalError as e:
+                    got.append(("error", str(e)))
         for i, (a, b) in enumerate(zip(seed_outputs, got)):
+            if b is None:
+                continue
             if isinstance(b, tuple) and b and b[0] == "error":
                 c05.append(("model_no_longer_evaluates", b[1][:140]))
                 break
@@ -227,6 +243,17 @@ def seed_protos(tier, which):
             order = (21, 13) if i % 2 == 0 else (13, 21)
             for v in order:
                 yield (forms, outs, f"opset{v}"), gg.make_model(forms, outs, opset=v)
+    elif which == "fn_default_pairs":
+        # the same seed with two different sets of function attribute defaults, back to back through the same pass
+        # objects (both orders): a call site that omits the attribute must get the defaults of ITS model
+        k = 0
+        for forms, outs in gg.gen_models(1):
+            if not any(f[0] in ("CallScaleDefault", "CallFwdDefault", "CallTwice", "CallFwd") for f in forms):
+                continue
+            order = (False, True) if k % 2 == 0 else (True, False)
+            k += 1
+            for alt in order:
+                yield (forms, outs, f"alt_defaults={alt}"), gg.make_model(forms, outs, alt_defaults=alt)
     elif which == "special":
         for label, m in gg.special_models():
             yield (label, ()), m
@@ -256,7 +283,7 @@ def replay_history(seed_hex, history, which, oracle):
     state = ser(ir.to_proto(ir.from_proto(proto)))
     bad = []
     for pname in history:
-        r = apply_pass(state, pname, outs, ins)
+        r = apply_pass(state, pname, outs, ins, seed_feeds=gg.feeds_for(proto))
         if r["crash"]:
             bad = [("pass_raises_on_valid_model", r["crash"])] if oracle.startswith("pass_raises") else []
             break
@@ -282,6 +309,7 @@ def explore_seed(desc, proto, depth, which):
     if any(isinstance(o, tuple) for o in seed_outputs):
         return 0, 0, 0, {}, "seed_not_evaluable"
     seed_inputs = non_initializer_inputs(proto)
+    seed_feeds = gg.feeds_for(proto)
     try:
         start = ser(ir.to_proto(ir.from_proto(proto)))
     except Exception:  # noqa: BLE001
@@ -294,7 +322,7 @@ def explore_seed(desc, proto, depth, which):
         nxt = []
         for state, path in frontier:
             for pname, _ in PASSES:
-                r = apply_pass(state, pname, seed_outputs, seed_inputs, full_check=full)
+                r = apply_pass(state, pname, seed_outputs, seed_inputs, full_check=full, seed_feeds=seed_feeds)
                 ntrans += 1
                 if r["crash"]:
                     key = f"pass_crash|{pname}|{r['crash'].split(':')[0]}"
@@ -354,16 +382,17 @@ def plan(tier):
     no = sum(1 for _ in gg.gen_order_family())
     nc = sum(1 for _ in gg.gen_nameclash_family())
     nsp = len(gg.special_models())
+    nfd = sum(1 for _ in seed_protos("quick", "fn_default_pairs"))
     if tier == "quick":
-        return [("nameclash", nc, 1), ("special", nsp, 2), ("n1", n1, 2), ("n1_opset_pairs", 2 * n1, 1), ("dupfam", nd, 1), ("orderfam", no, 1), ("n2", n2, 1)]
-    return [("nameclash", nc, 2), ("special", nsp, 3), ("n1", n1, 3), ("n1_opset_pairs", 2 * n1, 2), ("dupfam", nd, 2), ("orderfam", no, 2), ("n2", n2, 2)]
+        return [("fn_default_pairs", nfd, 1), ("nameclash", nc, 1), ("special", nsp, 2), ("n1", n1, 2), ("n1_opset_pairs", 2 * n1, 1), ("dupfam", nd, 1), ("orderfam", no, 1), ("n2", n2, 1)]
+    return [("fn_default_pairs", nfd, 2), ("nameclash", nc, 2), ("special", nsp, 3), ("n1", n1, 3), ("n1_opset_pairs", 2 * n1, 2), ("dupfam", nd, 2), ("orderfam", no, 2), ("n2", n2, 2)]
 
 
 def run_exploration(tier):
     tasks = []
     for which, count, depth in plan(tier):
         step = max(1, count // 64)
-        if which == "n1_opset_pairs":
+        if which in ("n1_opset_pairs", "fn_default_pairs"):
             step = 2 * max(1, step // 2)
         for lo in range(0, count, step):
             tasks.append((which, lo, min(count, lo + step), depth, tier))
